@@ -1,6 +1,6 @@
 //! BufMut side: target trees (Vec, BytesMut, fixed slices, uninit slices, Chain, Limit, &mut,
 //! Box) with inspectable state.
-use crate::{bytes_of, dec, jbytes, tables, Node};
+use crate::{bytes_of, dec, jbytes, path_json, tables, Node};
 use bytes::buf::{Chain, Limit, UninitSlice};
 use bytes::{BufMut, BytesMut};
 use serde_json::Value;
@@ -340,7 +340,7 @@ pub fn run_mut_program(p: &Value, out: &mut String) {
             }
         }));
         let outk = if r.is_ok() { "ok" } else { "panic" };
-        let _ = write!(out, "{{\"i\":{},\"op\":\"{}\",\"m\":\"{}\",\"n\":{},\"val\":{},\"out\":\"{}\",\"res\":{{\"k\":\"none\",\"n\":{},\"req\":0,\"avail\":0,\"flag\":{},\"v\":", i + 1, name, m, enc(n), o["val"].as_u64().unwrap_or(0), outk, rn, flag);
+        let _ = write!(out, "{{\"i\":{},\"op\":\"{}\",\"path\":{},\"m\":\"{}\",\"n\":{},\"val\":{},\"out\":\"{}\",\"res\":{{\"k\":\"none\",\"n\":{},\"req\":0,\"avail\":0,\"flag\":{},\"v\":", i + 1, name, path_json(o), m, enc(n), o["val"].as_u64().unwrap_or(0), outk, rn, flag);
         jbytes(out, &rv);
         out.push_str(",\"vv\":[]},\"d\":");
         jbytes(out, &d);
